@@ -3,6 +3,8 @@ import Proofs.C11Cow
 import Proofs.C11RR
 import Proofs.C11Pol
 import Proofs.C11TA
+import Proofs.C11Scan
+import Proofs.C11Hist
 /-! # C11 — host selection offers each live node once, nearest and replicas first (property theorems)
 
 Model: `Model/Policies.lean` (cowHostList, roundRobbin, roundRobinHostPolicy / dcAwareRR / rackAwareRR,
@@ -44,12 +46,94 @@ theorem C11_rr_perm (up : Nat → Bool) (shift : Nat) (layers : List (List Host)
 example : rrSeq (fun id => id != 2) 4 [[⟨1, 1, 0, 0, []⟩, ⟨2, 2, 0, 0, []⟩, ⟨3, 3, 0, 0, []⟩], [⟨4, 4, 1, 0, []⟩]]
     = [⟨3, 3, 0, 0, []⟩, ⟨1, 1, 0, 0, []⟩, ⟨4, 4, 1, 0, []⟩] := by decide
 
-/-- Successive picks rotate the start: the policy's counter advances by one per `Pick`, and the order in
-which a layer is visited by the next pick is the previous order rotated by one. -/
-theorem C11_rr_rotates (p : Pol) (up : Nat → Bool) (l : List Host) :
+/-! ### the rotation counter as the code has it (uint64, `int(...)`, Go `%`) — finding KF-C11-3
+
+FULL PROPERTY ("any number of successive picks"): for EVERY value of the counter the iterator offers the
+ideal sequence `rrSeq up (picks so far) layers`, and the next pick starts one host further. The unchanged
+code violates it: `int(nextStartOffset)` is negative from 2^63 picks on, and `shift+currentlyObserved`
+overflows `int` just below; a negative index panics (counterexample `C11_cex_counter_wrap`). What holds is
+the statement below the bound `counter + 1 + layer length < 2^63`. -/
+
+/-- For every value of the counter below the bound, every up/down state and all layers, the iterator of the
+code (`rrScan`: uint64 counter converted to int, wrapping sum, truncated remainder, panic on a negative index)
+does not panic and offers exactly the ideal sequence `rrSeq` of `C11_rr_perm` (rotation by the number of
+picks, permutation of the up hosts, complete, no duplicates). -/
+theorem C11_scan_below_bound_partial (up : Nat → Bool) (ctr : Nat) (layers : List (List Host))
+    (hb : ∀ l ∈ layers, ctr + 1 + l.length < 9223372036854775808) :
+    rrScan up (wrap64 (((ctr + 1) % 18446744073709551616 : Nat) : Int)) layers = ⟨rrSeq up (ctr + 1) layers, false⟩ := by
+  cases layers with
+  | nil => rfl
+  | cons l ls =>
+    have hc : (ctr + 1) % 18446744073709551616 = ctr + 1 := by
+      apply Nat.mod_eq_of_lt
+      have := hb l List.mem_cons_self
+      omega
+    rw [hc]
+    exact rrScan_small up (ctr + 1) (l :: ls) hb
+
+/-- the same for the three policies: below the bound `Pol.below` the next `Pick` is the ideal one -/
+theorem C11_pick_below_bound_partial (p : Pol) (up : Nat → Bool) (hb : Pol.below p) :
+    p.pickScan up = ⟨p.pickSeq up, false⟩ ∧ (p.pick up).1.ctr = p.ctr + 1 := by
+  refine ⟨pickScan_small p up hb, ?_⟩
+  have : p.layers ≠ [] := by unfold Pol.layers; split <;> simp
+  obtain ⟨l, hl⟩ := List.exists_mem_of_ne_nil _ this
+  have := hb l hl
+  exact bump_ctr p (by omega)
+
+/-- Successive picks rotate the start (below the bound): the counter advances by one per `Pick`, and the
+positions the next pick visits in a layer are those of this pick rotated by one. -/
+theorem C11_rr_rotates_partial (p : Pol) (up : Nat → Bool) (l : List Host)
+    (hb : p.ctr + 2 + l.length < 9223372036854775808) :
     (p.pick up).1.ctr = p.ctr + 1 ∧
-    layerSeq ((p.pick up).1.ctr + 1) l = rot 1 (layerSeq (p.ctr + 1) l) :=
-  ⟨rfl, layerSeq_succ (p.ctr + 1) l⟩
+    layerScan p.shift l = (layerSeq (p.ctr + 1) l).map some ∧
+    layerScan (p.pick up).1.shift l = (rot 1 (layerSeq (p.ctr + 1) l)).map some := by
+  have h1 : (p.pick up).1.ctr = p.ctr + 1 := bump_ctr p (by omega)
+  refine ⟨h1, ?_, ?_⟩
+  · rw [shift_small p (by omega)]
+    exact layerScan_small (p.ctr + 1) l (by omega)
+  · rw [shift_small _ (by rw [h1]; omega), h1, ← layerSeq_succ]
+    exact layerScan_small (p.ctr + 1 + 1) l (by omega)
+
+theorem rot_one_cons (x : Host) (r : List Host) : rot 1 (x :: r) = r ++ [x] := by
+  cases r with
+  | nil => simp [rot]
+  | cons y t =>
+    have e : 1 % (x :: y :: t).length = 1 := Nat.mod_eq_of_lt (by simp)
+    unfold rot
+    rw [e]
+    rfl
+
+/-- what the rotation by one means for the OFFERED sequences (down hosts filtered out) of two successive
+picks over the same layer: if the host the first pick starts its scan at is up, the second sequence is the
+first rotated by one; if it is down, the two sequences are equal. (The harness checks this relation between
+successive picks on the real code; with all hosts up it is the rotation.) -/
+theorem C11_rotate_offered (f : Host → Bool) (x : Host) (r : List Host) :
+    (rot 1 (x :: r)).filter f = if f x = true then rot 1 ((x :: r).filter f) else (x :: r).filter f := by
+  rw [rot_one_cons, List.filter_append]
+  by_cases h : f x = true
+  · have e : (x :: r).filter f = x :: r.filter f := List.filter_cons_of_pos h
+    rw [if_pos h, e, rot_one_cons]
+    simp [h]
+  · have e : (x :: r).filter f = r.filter f := List.filter_cons_of_neg h
+    rw [if_neg h, e]
+    simp [h]
+
+def cexW1 : Host := ⟨1, 1, 0, 0, []⟩
+def cexW2 : Host := ⟨2, 2, 0, 0, []⟩
+def cexW3 : Host := ⟨3, 3, 0, 0, []⟩
+/-- round-robin policy with three hosts -/
+def cexWrap : Pol := (((Pol.new .rr 0 0).add cexW1).add cexW2).add cexW3
+
+/-- COUNTEREXAMPLE to the full property (kernel-checked, all hosts up): after 2^63−5 picks the sixth-last
+pick below the bound still offers all three hosts; after 2^63−2 picks `shift+1` overflows to −2^63, the index
+`-2^63 % 3 = -2` is negative and the first iterator call panics; after 2^63 picks the shift itself is
+negative and the second call panics; the policy only recovers when the counter has wrapped past 2^64. -/
+theorem C11_cex_counter_wrap :
+    (cexWrap.setCtr 9223372036854775803).pickScan (fun _ => true) = ⟨[cexW3, cexW1, cexW2], false⟩ ∧
+    (cexWrap.setCtr 9223372036854775806).pickScan (fun _ => true) = ⟨[], true⟩ ∧
+    (cexWrap.setCtr 9223372036854775808).pickScan (fun _ => true) = ⟨[cexW1], true⟩ ∧
+    (cexWrap.setCtr 18446744073709551615).pickScan (fun _ => true) = ⟨[cexW2, cexW3, cexW1], false⟩ := by
+  decide
 
 /-! ## the three round-robin based policies, all reachable states -/
 
@@ -57,11 +141,13 @@ inductive Op
   | add (h : Host)       -- AddHost / HostUp
   | remove (h : Host)    -- RemoveHost / HostDown
   | pick (up : Nat → Bool)
+  | setCtr (n : Nat)     -- the policy has served n picks already (hook VerifSetPickCount)
 
 def Pol.apply (p : Pol) : Op → Pol
   | .add h => p.add h
   | .remove h => p.remove h
   | .pick up => (p.pick up).1
+  | .setCtr n => p.setCtr n
 
 theorem Inv_run (p : Pol) (hp : Inv p) (ops : List Op) : Inv (ops.foldl Pol.apply p) := by
   induction ops generalizing p with
@@ -72,20 +158,23 @@ theorem Inv_run (p : Pol) (hp : Inv p) (ops : List Op) : Inv (ops.foldl Pol.appl
     | add h => exact Inv_add p hp h
     | remove h => exact Inv_remove p hp h
     | pick up => exact Inv_pick p hp up
+    | setCtr n => exact Inv_setCtr p hp n
 
-/-- For every policy kind and configuration, after ANY sequence of AddHost/RemoveHost/HostUp/HostDown/Pick,
-and for any up/down state of the host objects, the sequence offered by the next `Pick`
-has no host twice, offers only up hosts, offers every up host the policy knows, and is ordered by tier
-(local before remote; local rack, local DC, remote DC). -/
-theorem C11_policy_all_states (k : Kind) (ldc lrack : Nat) (ops : List Op) (up : Nat → Bool) :
+/-- For every policy kind and configuration, after ANY sequence of AddHost/RemoveHost/HostUp/HostDown/Pick
+and ANY number of earlier picks (`setCtr`), and for any up/down state of the host objects: below the
+counter bound (`Pol.below`, KF-C11-3) the iterator of the next `Pick` does not panic and offers the sequence
+`p.pickSeq up`, which has no host twice, offers only up hosts, offers every up host the policy knows, and
+is ordered by tier (local before remote; local rack, local DC, remote DC). -/
+theorem C11_policy_all_states_partial (k : Kind) (ldc lrack : Nat) (ops : List Op) (up : Nat → Bool) :
     let p := ops.foldl Pol.apply (Pol.new k ldc lrack)
+    (Pol.below p → p.pickScan up = ⟨p.pickSeq up, false⟩) ∧
     (p.pickSeq up).Nodup ∧
     (∀ h ∈ p.pickSeq up, up h.id = true) ∧
     (∀ h, known p h → up h.id = true → h ∈ p.pickSeq up) ∧
     (p.pickSeq up).Pairwise (fun a b => p.tier a ≤ p.tier b) := by
   intro p
   have hp : Inv p := Inv_run _ (Inv_new k ldc lrack) ops
-  refine ⟨pickSeq_nodup p hp up, ?_, ?_, pickSeq_sorted p hp up⟩
+  refine ⟨pickScan_small p up, pickSeq_nodup p hp up, ?_, ?_, pickSeq_sorted p hp up⟩
   · intro h hh; exact ((mem_pickSeq p hp up h).mp hh).2
   · intro h hk hu; exact (mem_pickSeq p hp up h).mpr ⟨hk, hu⟩
 
@@ -103,6 +192,7 @@ inductive TAOp
   | add (h : Host) | remove (h : Host) | hostUp (h : Host) | hostDown (h : Host)
   | setReplicas (ks : Nat) (tab : List (Nat × List Host))
   | pick (up : Nat → Bool) (σ : List Host → List Host) (rk : Option (Nat × Nat)) (limit : Nat)
+  | setCtr (n : Nat)     -- the fallback policy has served n picks already (hook VerifSetPickCount)
 
 def TA.apply (t : TA) : TAOp → TA
   | .add h => t.add h
@@ -111,9 +201,10 @@ def TA.apply (t : TA) : TAOp → TA
   | .hostDown h => t.hostDown h
   | .setReplicas ks tab => t.setReplicas ks tab
   | .pick up σ rk limit => (t.pick up σ rk limit).1
+  | .setCtr n => { t with pol := t.pol.setCtr n }
 
 theorem pick_pol (t : TA) (up : Nat → Bool) (σ : List Host → List Host) (rk : Option (Nat × Nat)) (limit : Nat) :
-    (t.pick up σ rk limit).1.pol = t.pol ∨ (t.pick up σ rk limit).1.pol = (t.pol.pick up).1 := by
+    (t.pick up σ rk limit).1.pol = t.pol ∨ (t.pick up σ rk limit).1.pol = t.pol.bump := by
   unfold TA.pick
   simp only
   repeat' split
@@ -134,7 +225,8 @@ theorem TAInv_run (t : TA) (hp : Inv t.pol) (ops : List TAOp) : Inv (ops.foldl T
       show Inv (t.pick up σ rk limit).1.pol
       rcases pick_pol t up σ rk limit with e | e <;> rw [e]
       · exact hp
-      · exact Inv_pick _ hp up
+      · exact Inv_bump _ hp
+    | setCtr n => exact Inv_setCtr _ hp n
 
 /-- a state used in the non-vacuity examples: rack-aware fallback, non-local fallback, replicas a (local rack, down below), c (local DC) -/
 def cexTAok : TA :=
@@ -231,24 +323,43 @@ theorem run_opts (t : TA) (ops : List TAOp) :
     · cases o <;> first | rfl | exact (pick_opts t _ _ _ _).1
     · cases o <;> first | rfl | exact (pick_opts t _ _ _ _).2
 
+/-- below the counter bound the iterator of the code offers the ideal sequence and does not panic -/
+theorem pickScan_ideal (t : TA) (up : Nat → Bool) (σ : List Host → List Host) (rk : Option (Nat × Nat))
+    (hb : Pol.below t.pol) (l : List Host) (hl : t.pickSeq up σ rk = .seq l) : t.pickScan up σ rk = ⟨l, false⟩ := by
+  unfold TA.pickSeq at hl
+  unfold TA.pickScan
+  split at hl
+  · injection hl with hl; rw [pickScan_small _ up hb, hl]
+  · split at hl
+    · injection hl with hl; rw [pickScan_small _ up hb, hl]
+    · injection hl with hl; rw [pickScan_small _ up hb, hl]
+    · injection hl with hl; rw [pickScan_small _ up hb, ← hl]; rfl
+
 /-- THE PROPERTY for the token-aware policy, in every reachable state (any history of AddHost / RemoveHost /
 HostUp / HostDown / replica-table updates / picks), for every fallback kind and option combination, any
 up/down state, any query (with or without routing key, keyspace with or without replica table, token ring
-empty or not): the drained iterator ends without a nil-host dereference; if the replica lists of the installed
+empty or not), ANY number of earlier picks of the fallback (`setCtr`): below the counter bound (`Pol.below`,
+KF-C11-3) the drained iterator of the code ends without a panic and offers the sequence `l`; if the replica lists of the installed
 tables have no duplicates and the shuffle permutes, it offers no host twice, only up hosts, and every up
 host the fallback policy knows; it starts with the up replicas of the token tier by tier (nearest tier
 first, farther tiers only with NonLocalReplicasFallback; replica-list order inside a tier, i.e. primary
 first unless shuffling) — for EVERY replica list, also when a middle tier has no replica (KF-C11-1) — and
 continues with hosts in the fallback policy's order, which is ordered by tier. -/
-theorem C11_tokenaware_all_states (k : Kind) (ldc lrack : Nat) (sh nl ps : Bool) (ops : List TAOp)
+theorem C11_tokenaware_all_states_partial (k : Kind) (ldc lrack : Nat) (sh nl ps : Bool) (ops : List TAOp)
     (up : Nat → Bool) (σ : List Host → List Host) (hσ : ∀ l, (σ l).Perm l) (rk : Option (Nat × Nat)) :
     let t := ops.foldl TA.apply (TA.new (Pol.new k ldc lrack) sh nl ps)
     (∀ e ∈ t.replicas, ∀ f ∈ e.2, f.2.Nodup) →
-    ∃ l, t.pickSeq up σ rk = .seq l ∧
+    ∃ l, t.pickSeq up σ rk = .seq l ∧ (Pol.below t.pol → t.pickScan up σ rk = ⟨l, false⟩) ∧
       l.Nodup ∧ (∀ h ∈ l, up h.id = true) ∧ (∀ h, known t.pol h → up h.id = true → h ∈ l) ∧
       ∃ rest, l = specHead t.pol.tier t.pol.maxTier up nl ((repsOf t σ rk).getD []) ++ rest ∧
         rest.Sublist (t.pol.pickSeq up) ∧ rest.Pairwise (fun a b => t.pol.tier a ≤ t.pol.tier b) := by
   intro t hrep
+  suffices hh : ∃ l, t.pickSeq up σ rk = .seq l ∧
+      l.Nodup ∧ (∀ h ∈ l, up h.id = true) ∧ (∀ h, known t.pol h → up h.id = true → h ∈ l) ∧
+      ∃ rest, l = specHead t.pol.tier t.pol.maxTier up nl ((repsOf t σ rk).getD []) ++ rest ∧
+        rest.Sublist (t.pol.pickSeq up) ∧ rest.Pairwise (fun a b => t.pol.tier a ≤ t.pol.tier b) by
+    obtain ⟨l, h1, h2⟩ := hh
+    exact ⟨l, h1, fun hb => pickScan_ideal t up σ rk hb l h1, h2⟩
   have hp : Inv t.pol := TAInv_run _ (Inv_new k ldc lrack) ops
   have hnl : t.nonlocal = nl := (run_opts _ ops).1
   have plain : t.pickSeq up σ rk = .seq (t.pol.pickSeq up) → repsOf t σ rk = none →
@@ -282,25 +393,33 @@ theorem C11_tokenaware_all_states (k : Kind) (ldc lrack : Nat) (sh nl ps : Bool)
             (t.pol.pickSeq up), ?_, minusUsed_sublist _ _, (pickSeq_sorted _ hp up).sublist (minusUsed_sublist _ _)⟩
         simp only [repsOf, hr, Option.getD_some, taSeq, hnl, taHead_eq_specHead]
 
-/-- `Pick` followed by `limit` calls of the iterator offers the first `limit` hosts of the full sequence
-(ties the limited pick of the model driver to the sequences the theorems are about) -/
+theorem take_mk (l : List Host) (c : Bool) (limit : Nat) :
+    Scan.take ⟨l, c⟩ limit = if limit ≤ l.length then .seq (l.take limit) else if c then .crash else .seq l := rfl
+
+theorem taScan_eq (tier : Host → Nat) (m : Nat) (up : Nat → Bool) (nl : Bool) (reps : List Host) (fb : Scan) :
+    taScan tier m up nl reps fb = ⟨taHead tier m up nl reps ++ minusUsed (taHead tier m up nl reps) fb.offered, fb.crashed⟩ := rfl
+
+/-- `Pick` followed by `limit` calls of the iterator offers the first `limit` hosts of the drained iterator, and
+panics only if the calls get as far as the panic (ties the limited pick of the model driver to `TA.pickScan`,
+for every counter value) -/
 theorem C11_pick_take (t : TA) (up : Nat → Bool) (σ : List Host → List Host) (rk : Option (Nat × Nat)) (limit : Nat) :
-    (t.pick up σ rk limit).2 = match t.pickSeq up σ rk with
-      | .seq l => .seq (l.take limit)
-      | .crash => .crash := by
-  unfold TA.pick TA.pickSeq
+    (t.pick up σ rk limit).2 = (t.pickScan up σ rk).take limit := by
+  unfold TA.pick TA.pickScan
   simp only
   split
   · rfl
   · split
     · rfl
     · rfl
-    · simp only
-      generalize (if (_ && t.shuffle) = true then σ _ else _) = reps
+    · generalize (if (_ && t.shuffle) = true then σ _ else _) = reps
       split
       · rename_i h
-        simp only [taSeq]
-        rw [List.take_append_of_le_length h]
+        rw [taScan_eq, take_mk]
+        split
+        · rw [List.take_append_of_le_length h]
+        · rename_i h2
+          rw [List.length_append] at h2
+          omega
       · rfl
 
 example : (cexTAok.pickSeq (fun id => id != 1) id (some (0, 50))) = .seq [cexC', cexB', cexD'] := by decide
@@ -363,28 +482,41 @@ token ring (no host with tokens in the policy's list) and a keyspace without rep
 of the rack-aware or dc-aware fallback dereferenced it. The repaired `Pick` hands the query to the fallback
 policy when `GetHostForToken` has no host (`Replicas.emptyRing`). -/
 
-/-- for every state (reachable or not), every fallback kind, option, up/down state, shuffle and query the
-drained iterator yields a sequence; in the formerly crashing states (`emptyRing`) it is the fallback
-policy's sequence, and `Pick` + `limit` calls behave as the fallback's `Pick` + `limit` calls -/
-theorem C11_tokenaware_no_crash (t : TA) (up : Nat → Bool) (σ : List Host → List Host) (rk : Option (Nat × Nat)) :
+/-- for every state (reachable or not), every fallback kind, option, up/down state, shuffle and query: below
+the counter bound (KF-C11-3) the drained iterator does not panic, nor does `Pick` + `limit` calls; in the
+formerly crashing states (`emptyRing`) the iterator is the fallback policy's, for every counter value -/
+theorem C11_tokenaware_no_crash_partial (t : TA) (up : Nat → Bool) (σ : List Host → List Host) (rk : Option (Nat × Nat)) :
     t.pickSeq up σ rk ≠ .crash ∧
-    (∀ limit, (t.pick up σ rk limit).2 ≠ .crash) ∧
+    (Pol.below t.pol → (t.pickScan up σ rk).crashed = false ∧ ∀ limit, (t.pick up σ rk limit).2 ≠ .crash) ∧
     (∀ ks tok, rk = some (ks, tok) → t.replicasFor ks tok = .emptyRing →
-      t.pickSeq up σ rk = .seq (t.pol.pickSeq up) ∧
-      ∀ limit, t.pick up σ rk limit = ({ t with pol := (t.pol.pick up).1 }, .seq ((t.pol.pick up).2.take limit))) := by
+      t.pickScan up σ rk = t.pol.pickScan up ∧
+      ∀ limit, t.pick up σ rk limit = ({ t with pol := t.pol.bump }, (t.pol.pickScan up).take limit)) := by
   have h1 : t.pickSeq up σ rk ≠ .crash := by
     unfold TA.pickSeq
     repeat' split
     all_goals simp
   refine ⟨h1, ?_, ?_⟩
-  · intro limit
-    rw [C11_pick_take]
+  · intro hb
+    obtain ⟨l, hl⟩ : ∃ l, t.pickSeq up σ rk = .seq l := by
+      cases h : t.pickSeq up σ rk with
+      | seq l => exact ⟨l, rfl⟩
+      | crash => exact absurd h h1
+    have hs := pickScan_ideal t up σ rk hb l hl
+    refine ⟨by rw [hs], fun limit => ?_⟩
+    rw [C11_pick_take, hs]
+    unfold Scan.take
     split
     · simp
-    · rename_i h; exact absurd h h1
+    · simp
   · intro ks tok hrk hr
     subst hrk
-    exact ⟨by simp only [TA.pickSeq, hr], fun limit => by simp only [TA.pick, hr]⟩
+    exact ⟨by simp only [TA.pickScan, hr], fun limit => by simp only [TA.pick, hr]⟩
+
+/-- COUNTEREXAMPLE (kernel-checked): token-aware over the round-robin policy of `C11_cex_counter_wrap` after
+2^63−2 picks, query without routing key: the first iterator call panics -/
+theorem C11_cex_counter_wrap_ta :
+    ((TA.new (cexWrap.setCtr 9223372036854775806) false false true).pick (fun _ => true) id none 1000).2 = .crash := by
+  decide
 
 /-- the recorded input of KF-C11-2 (dc-aware fallback, partitioner set, no host with tokens, routing key
 given) and the same with two token-less hosts: the fallback's sequence is offered -/
@@ -392,6 +524,269 @@ theorem C11_fixed_nil_replica :
     (TA.new (Pol.new .dc 0 0) false false true).pickSeq (fun _ => true) id (some (0, 5)) = .seq [] ∧
     ([TAOp.add cexD, .add cexA].foldl TA.apply (TA.new (Pol.new .dc 0 0) false false true)).pickSeq
       (fun _ => true) id (some (0, 5)) = .seq [cexA, cexD] := by
+  decide
+
+/-! ## the policies against the HISTORY of notifier calls — findings KF-C11-4 (ghost), KF-C11-5 (stale replica)
+
+The property's "every up host the policy knows", with "knows" and "up" taken from the history of the
+`HostStateNotifier` calls and not from the policy's lists (`Policies.statusOf`, `Status.expected`): a host
+that was added and not removed since is known; it is up unless the last call about it was `HostDown`
+(and its `HostInfo` state is up).
+
+FULL PROPERTY: the drained iterator offers exactly the hosts that are expected by the history, each once.
+The unchanged code violates the "nothing else" half in two situations, which are the hypotheses of
+`C11_history_exact_partial`:
+  * ghost: `HostUp(h)` for a host that is not known (never added, or removed) puts it into the round-robin
+    lists (`HostUp` = `AddHost` there): `C11_cex_ghost_hostup`;
+  * stale replica: the replica table of a keyspace still lists a host that was removed or reported down
+    (tables of keyspaces other than the session's are not recomputed on topology changes, `HostDown` does not
+    touch them): the token-aware replica phase offers it if its `HostInfo` state is up: `C11_cex_stale_replica`.
+The "every expected host is offered" half holds for every history (`C11_history_complete`).
+Assumption of both: two different host objects of the history have different connect addresses (`NoAlias`;
+the lists identify hosts by address). -/
+
+def TAOp.ev : TAOp → Option (Ev × Host)
+  | .add h => some (.add, h)
+  | .remove h => some (.remove, h)
+  | .hostUp h => some (.hup, h)
+  | .hostDown h => some (.hdown, h)
+  | _ => none
+
+/-- the notifier calls of an operation history, oldest first -/
+def evsOf (ops : List TAOp) : List (Ev × Host) := ops.filterMap TAOp.ev
+def hostsOf (ops : List TAOp) : List Host := (evsOf ops).map (·.2)
+def NoAlias (ops : List TAOp) : Prop := ∀ a ∈ hostsOf ops, ∀ b ∈ hostsOf ops, a.addr = b.addr → a = b
+
+theorem hist_add (U : Host → Prop) (hU : ∀ a b, U a → U b → a.addr = b.addr → a = b)
+    (p : Pol) (S0 : Host → Status) (h : Host) (hh : U h) (e : Ev) (he : e = .add ∨ e = .hup)
+    (hp : Inv p) (hk : ∀ x, known p x → U x) (hs : ∀ x, known p x ↔ (S0 x).inList = true) :
+    Inv (p.add h) ∧ (∀ x, known (p.add h) x → U x) ∧
+      ∀ x, known (p.add h) x ↔ (if h = x then (S0 x).step e else S0 x).inList = true := by
+  have hna : ∀ y, known p y → y.addr = h.addr → y = h := fun y hy e' => hU y h (hk y hy) hh e'
+  refine ⟨Inv_add p hp h, ?_, ?_⟩
+  · intro x hx
+    rcases (known_add p hp h x hna).mp hx with h1 | h1
+    · exact hk x h1
+    · rw [h1]; exact hh
+  · intro x
+    rw [known_add p hp h x hna]
+    by_cases hx : h = x
+    · rw [if_pos hx]
+      have : ((S0 x).step e).inList = true := by rcases he with rfl | rfl <;> simp [Status.step, Status.inList]
+      rw [this]
+      exact ⟨fun _ => rfl, fun _ => Or.inr hx.symm⟩
+    · rw [if_neg hx, hs x]
+      constructor
+      · rintro (h1 | h1)
+        · exact h1
+        · exact absurd h1.symm hx
+      · exact Or.inl
+
+theorem hist_remove (U : Host → Prop) (hU : ∀ a b, U a → U b → a.addr = b.addr → a = b)
+    (p : Pol) (S0 : Host → Status) (h : Host) (hh : U h) (e : Ev) (he : e = .remove ∨ e = .hdown)
+    (hp : Inv p) (hk : ∀ x, known p x → U x) (hs : ∀ x, known p x ↔ (S0 x).inList = true) :
+    Inv (p.remove h) ∧ (∀ x, known (p.remove h) x → U x) ∧
+      ∀ x, known (p.remove h) x ↔ (if h = x then (S0 x).step e else S0 x).inList = true := by
+  have hna : ∀ y, known p y → y.addr = h.addr → y = h := fun y hy e' => hU y h (hk y hy) hh e'
+  refine ⟨Inv_remove p hp h, ?_, ?_⟩
+  · intro x hx
+    exact hk x ((known_remove p hp h x hna).mp hx).1
+  · intro x
+    rw [known_remove p hp h x hna]
+    by_cases hx : h = x
+    · rw [if_pos hx]
+      have : ((S0 x).step e).inList = false := by rcases he with rfl | rfl <;> simp [Status.step, Status.inList]
+      rw [this]
+      exact ⟨fun h1 => absurd hx.symm h1.2, fun h1 => by cases h1⟩
+    · rw [if_neg hx, hs x]
+      exact ⟨fun h1 => h1.1, fun h1 => ⟨h1, fun e' => hx e'.symm⟩⟩
+
+/-- the invariant tying the fallback policy's lists to the history, along any operation history -/
+theorem hist_run (U : Host → Prop) (hU : ∀ a b, U a → U b → a.addr = b.addr → a = b) (ops : List TAOp) :
+    ∀ (t : TA) (S0 : Host → Status),
+    (∀ o ∈ ops, ∀ e h, o.ev = some (e, h) → U h) → Inv t.pol → (∀ x, known t.pol x → U x) →
+    (∀ x, known t.pol x ↔ (S0 x).inList = true) →
+    Inv (ops.foldl TA.apply t).pol ∧ (∀ x, known (ops.foldl TA.apply t).pol x → U x) ∧
+      ∀ x, known (ops.foldl TA.apply t).pol x ↔ (statusFrom (S0 x) (evsOf ops) x).inList = true := by
+  induction ops with
+  | nil => intro t S0 _ hp hk hs; exact ⟨hp, hk, hs⟩
+  | cons o r ih =>
+    intro t S0 hops hp hk hs
+    have hr : ∀ o ∈ r, ∀ e h, o.ev = some (e, h) → U h := fun o ho => hops o (List.mem_cons_of_mem _ ho)
+    rw [List.foldl_cons]
+    cases o with
+    | add h =>
+      obtain ⟨a, b, c⟩ := hist_add U hU t.pol S0 h (hops _ List.mem_cons_self .add h rfl) .add (Or.inl rfl) hp hk hs
+      exact ih (t.add h) (fun x => if h = x then (S0 x).step .add else S0 x) hr a b c
+    | hostUp h =>
+      obtain ⟨a, b, c⟩ := hist_add U hU t.pol S0 h (hops _ List.mem_cons_self .hup h rfl) .hup (Or.inr rfl) hp hk hs
+      exact ih (t.hostUp h) (fun x => if h = x then (S0 x).step .hup else S0 x) hr a b c
+    | remove h =>
+      obtain ⟨a, b, c⟩ := hist_remove U hU t.pol S0 h (hops _ List.mem_cons_self .remove h rfl) .remove (Or.inl rfl) hp hk hs
+      exact ih (t.remove h) (fun x => if h = x then (S0 x).step .remove else S0 x) hr a b c
+    | hostDown h =>
+      obtain ⟨a, b, c⟩ := hist_remove U hU t.pol S0 h (hops _ List.mem_cons_self .hdown h rfl) .hdown (Or.inr rfl) hp hk hs
+      exact ih (t.hostDown h) (fun x => if h = x then (S0 x).step .hdown else S0 x) hr a b c
+    | setReplicas ks tab => exact ih (t.setReplicas ks tab) S0 hr hp hk hs
+    | setCtr n => exact ih { t with pol := t.pol.setCtr n } S0 hr (Inv_setCtr _ hp n) hk hs
+    | pick up σ rk limit =>
+      apply ih (t.pick up σ rk limit).1 S0 hr
+      · rcases pick_pol t up σ rk limit with e | e <;> rw [e]
+        · exact hp
+        · exact Inv_bump _ hp
+      · rcases pick_pol t up σ rk limit with e | e <;> rw [e]
+        · exact hk
+        · exact hk
+      · rcases pick_pol t up σ rk limit with e | e <;> rw [e]
+        · exact hs
+        · exact hs
+
+/-- in every reachable state the fallback policy lists exactly the hosts whose last notifier call was
+`AddHost` or `HostUp` -/
+theorem hist_final (k : Kind) (ldc lrack : Nat) (sh nl ps : Bool) (ops : List TAOp) (hna : NoAlias ops) :
+    Inv (ops.foldl TA.apply (TA.new (Pol.new k ldc lrack) sh nl ps)).pol ∧
+    ∀ x, known (ops.foldl TA.apply (TA.new (Pol.new k ldc lrack) sh nl ps)).pol x ↔
+      (statusOf (evsOf ops) x).inList = true := by
+  have hops : ∀ o ∈ ops, ∀ e h, o.ev = some (e, h) → h ∈ hostsOf ops := by
+    intro o ho e h he
+    exact List.mem_map.mpr ⟨(e, h), List.mem_filterMap.mpr ⟨o, ho, he⟩, rfl⟩
+  have := hist_run (fun h => h ∈ hostsOf ops) (fun a b ha hb => hna a ha b hb) ops
+    (TA.new (Pol.new k ldc lrack) sh nl ps) (fun _ => Status.init) hops (Inv_new k ldc lrack)
+    (fun x hx => by simp [known, Pol.new, TA.new] at hx)
+    (fun x => by simp [known, Pol.new, TA.new, Status.inList, Status.init])
+  exact ⟨this.1, this.2.2⟩
+
+/-- structure of the ideal sequence in a state with the list invariant (no assumption on the replica tables) -/
+theorem pickSeq_struct (t : TA) (hp : Inv t.pol) (up : Nat → Bool) (σ : List Host → List Host) (rk : Option (Nat × Nat)) :
+    ∃ l, t.pickSeq up σ rk = .seq l ∧ (∀ h, known t.pol h → up h.id = true → h ∈ l) ∧
+      ∀ h ∈ l, up h.id = true ∧
+        (h ∈ specHead t.pol.tier t.pol.maxTier up t.nonlocal ((repsOf t σ rk).getD []) ∨ known t.pol h) := by
+  have plain : t.pickSeq up σ rk = .seq (t.pol.pickSeq up) →
+      ∃ l, t.pickSeq up σ rk = .seq l ∧ (∀ h, known t.pol h → up h.id = true → h ∈ l) ∧
+      ∀ h ∈ l, up h.id = true ∧
+        (h ∈ specHead t.pol.tier t.pol.maxTier up t.nonlocal ((repsOf t σ rk).getD []) ∨ known t.pol h) := by
+    intro e1
+    exact ⟨_, e1, fun h hk hu => (mem_pickSeq _ hp up h).mpr ⟨hk, hu⟩,
+      fun h hh => ⟨((mem_pickSeq _ hp up h).mp hh).2, Or.inr ((mem_pickSeq _ hp up h).mp hh).1⟩⟩
+  cases rk with
+  | none => exact plain rfl
+  | some kt =>
+    obtain ⟨ks, tok⟩ := kt
+    cases hr : t.replicasFor ks tok with
+    | noRing => exact plain (by simp only [TA.pickSeq, hr])
+    | emptyRing => exact plain (by simp only [TA.pickSeq, hr])
+    | hosts reps ft =>
+      refine ⟨taSeq t.pol.tier t.pol.maxTier up t.nonlocal (if (ft && t.shuffle) = true then σ reps else reps) (t.pol.pickSeq up),
+        by simp only [TA.pickSeq, hr], ?_, ?_⟩
+      · exact fun h hk hu => mem_taSeq_of_fallback _ _ _ _ _ _ h ((mem_pickSeq _ hp up h).mpr ⟨hk, hu⟩)
+      · intro h hh
+        refine ⟨taSeq_up _ _ _ _ _ _ (fun x hx => ((mem_pickSeq _ hp up x).mp hx).2) h hh, ?_⟩
+        simp only [taSeq, List.mem_append] at hh
+        rcases hh with hh | hh
+        · left
+          simp only [repsOf, hr, Option.getD_some]
+          rw [← taHead_eq_specHead]; exact hh
+        · right
+          exact ((mem_pickSeq _ hp up h).mp ((minusUsed_sublist _ _).subset hh)).1
+
+/-- COMPLETENESS against the history, for EVERY operation history (AddHost / RemoveHost / HostUp / HostDown
+of the same host in any order and number, replica-table updates, picks, any number of earlier picks), every
+policy kind — bare (`rk = none`: the sequence is the fallback policy's own) or as token-aware fallback —
+every option, up/down state and query: below the counter bound the drained iterator of the code does not
+panic and offers `l`; `l` has only hosts whose state is up, and EVERY host the history expects (added and not
+removed since, last call not `HostDown`, state up) is in `l`. -/
+theorem C11_history_complete (k : Kind) (ldc lrack : Nat) (sh nl ps : Bool) (ops : List TAOp)
+    (up : Nat → Bool) (σ : List Host → List Host) (rk : Option (Nat × Nat)) (hna : NoAlias ops) :
+    let t := ops.foldl TA.apply (TA.new (Pol.new k ldc lrack) sh nl ps)
+    ∃ l, t.pickSeq up σ rk = .seq l ∧ (Pol.below t.pol → t.pickScan up σ rk = ⟨l, false⟩) ∧
+      (∀ h ∈ l, up h.id = true) ∧
+      ∀ x, (statusOf (evsOf ops) x).expected (up x.id) = true → x ∈ l := by
+  intro t
+  obtain ⟨hp, hkn⟩ := hist_final k ldc lrack sh nl ps ops hna
+  obtain ⟨l, hl, hc, hm⟩ := pickSeq_struct t hp up σ rk
+  refine ⟨l, hl, fun hb => pickScan_ideal t up σ rk hb l hl, fun h hh => (hm h hh).1, ?_⟩
+  intro x hx
+  obtain ⟨h1, h2⟩ := expected_inList _ (wf_statusOf _ x) _ hx
+  exact hc x ((hkn x).mpr h1) h2
+
+/-- EXACTNESS against the history (partial: no ghost, no stale replica — see the section comment): under the
+hypotheses of `C11_tokenaware_all_states_partial`, if no host is a ghost and every host of the specified
+replica head is expected by the history, the drained iterator offers EXACTLY the expected hosts, each once:
+`l` is a permutation of the expected hosts of any duplicate-free universe containing the hosts of the history. -/
+theorem C11_history_exact_partial (k : Kind) (ldc lrack : Nat) (sh nl ps : Bool) (ops : List TAOp)
+    (up : Nat → Bool) (σ : List Host → List Host) (hσ : ∀ l, (σ l).Perm l) (rk : Option (Nat × Nat)) (hna : NoAlias ops) :
+    let t := ops.foldl TA.apply (TA.new (Pol.new k ldc lrack) sh nl ps)
+    let S := fun x => statusOf (evsOf ops) x
+    (∀ e ∈ t.replicas, ∀ f ∈ e.2, f.2.Nodup) →
+    (∀ x, (S x).ghost = false) →
+    (∀ x ∈ specHead t.pol.tier t.pol.maxTier up nl ((repsOf t σ rk).getD []), (S x).expected true = true) →
+    ∃ l, t.pickSeq up σ rk = .seq l ∧ (Pol.below t.pol → t.pickScan up σ rk = ⟨l, false⟩) ∧ l.Nodup ∧
+      (∀ x, x ∈ l ↔ (S x).expected (up x.id) = true) ∧
+      ∀ univ : List Host, univ.Nodup → (∀ h ∈ hostsOf ops, h ∈ univ) →
+        l.Perm (univ.filter (fun x => (S x).expected (up x.id))) := by
+  intro t S hrep hg hst
+  obtain ⟨hp, hkn⟩ := hist_final k ldc lrack sh nl ps ops hna
+  obtain ⟨l, hl, hscan, hnd, hup, hcomp, rest, hrest, hsub, _⟩ :=
+    C11_tokenaware_all_states_partial k ldc lrack sh nl ps ops up σ hσ rk hrep
+  have hmem : ∀ x, x ∈ l ↔ (S x).expected (up x.id) = true := by
+    intro x
+    constructor
+    · intro hx
+      have hu := hup x hx
+      rw [hu]
+      rw [hrest, List.mem_append] at hx
+      rcases hx with hx | hx
+      · exact hst x hx
+      · have hk := ((mem_pickSeq _ hp up x).mp (hsub.subset hx)).1
+        exact inList_expected _ (wf_statusOf _ x) (hg x) ((hkn x).mp hk)
+    · intro hx
+      obtain ⟨h1, h2⟩ := expected_inList _ (wf_statusOf _ x) _ hx
+      exact hcomp x ((hkn x).mpr h1) h2
+  refine ⟨l, hl, hscan, hnd, hmem, ?_⟩
+  intro univ hun hall
+  rw [List.perm_ext_iff_of_nodup hnd (hun.filter _)]
+  intro x
+  rw [hmem x, List.mem_filter]
+  constructor
+  · intro hx
+    refine ⟨hall x (mem_of_known _ x ?_), hx⟩
+    simp only [Status.expected, Bool.and_eq_true] at hx
+    exact hx.1.1
+  · exact fun hx => hx.2
+
+def cexR : Host := ⟨9, 9, 1, 0, []⟩   -- remote DC
+/-- COUNTEREXAMPLE, ghost (kernel-checked): `HostUp` of a host that was never added — and of one that was
+removed — makes the round-robin policy offer it, although the history does not know it -/
+theorem C11_cex_ghost_hostup :
+    ([TAOp.hostUp cexW1].foldl TA.apply (TA.new (Pol.new .rr 0 0) false false false)).pickScan (fun _ => true) id none
+      = ⟨[cexW1], false⟩ ∧
+    (statusOf (evsOf [TAOp.hostUp cexW1]) cexW1).expected true = false ∧
+    ([TAOp.add cexW1, .add cexW2, .remove cexW1, .hostUp cexW1].foldl TA.apply
+        (TA.new (Pol.new .dc 0 0) false false false)).pickScan (fun _ => true) id none
+      = ⟨[cexW2, cexW1], false⟩ ∧
+    (statusOf (evsOf [TAOp.add cexW1, .add cexW2, .remove cexW1, .hostUp cexW1]) cexW1).expected true = false := by
+  decide
+
+/-- COUNTEREXAMPLE, stale replica (kernel-checked): token-aware over dc-aware; the replica table of keyspace 0
+lists the remote host r; after `RemoveHost(r)` — or after `HostDown(r)` with the `HostInfo` state still up — a
+routed query of that keyspace is still offered r, which the history does not expect -/
+theorem C11_cex_stale_replica :
+    ([TAOp.add cexW1, .add cexR, .setReplicas 0 [(100, [cexR, cexW1])], .remove cexR].foldl TA.apply
+        (TA.new (Pol.new .dc 0 0) false true true)).pickScan (fun _ => true) id (some (0, 50))
+      = ⟨[cexW1, cexR], false⟩ ∧
+    (statusOf (evsOf [TAOp.add cexW1, .add cexR, .setReplicas 0 [(100, [cexR, cexW1])], .remove cexR]) cexR).expected true = false ∧
+    ([TAOp.add cexW1, .add cexW2, .setReplicas 0 [(100, [cexW2])], .hostDown cexW2].foldl TA.apply
+        (TA.new (Pol.new .rr 0 0) false false true)).pickScan (fun _ => true) id (some (0, 50))
+      = ⟨[cexW2, cexW1], false⟩ ∧
+    (statusOf (evsOf [TAOp.add cexW1, .add cexW2, .setReplicas 0 [(100, [cexW2])], .hostDown cexW2]) cexW2).expected true = false := by
+  decide
+
+/-- non-vacuity: the history add, down, add (what `Session.startPoolFill` does on a node-up event) — the host
+is expected and offered, routed or not -/
+example :
+    let ops := [TAOp.add cexW1, .add cexW2, .hostDown cexW2, .add cexW2]
+    (statusOf (evsOf ops) cexW2).expected true = true ∧
+    (ops.foldl TA.apply (TA.new (Pol.new .dc 0 0) false false true)).pickScan (fun _ => true) id none = ⟨[cexW1, cexW2], false⟩ := by
   decide
 
 end C11
